@@ -345,6 +345,20 @@ def rule_size(ctx):
     except CannotEval:
         dv = None
     ctx.ob('C06.size', f'{f.fq}:default', dv is not None and dv >= 4, f'other arguments (int32/float32/midi) occupy 4 bytes; predicted {dv}', loop[0], mod)
+    # every tag the builder can infer for a value that lands in the predictor's default branch is at most that wide
+    g = ctx.repo.func('sc3.base._osclib:OscMessageBuilder._get_arg_type')
+    bc = ctx.repo.cls('sc3.base._osclib:OscMessageBuilder')
+    tagconst = {k: v.value for k, v in bc.class_assigns.items() if k.startswith('ARG_TYPE_') and U.is_str(v)}
+    inferred = sorted({n_.attr for n_ in ast.walk(g.node) if isinstance(n_, ast.Attribute) and U.is_self_attr(n_) and n_.attr.startswith('ARG_TYPE_')})
+    ctx.require(len(inferred) >= 6, 'C06.size', f'_get_arg_type tags not bound: {inferred}')
+    for cn in inferred:
+        tag = tagconst.get(cn)
+        kind = TAGS.get(tag)
+        if kind in ('string', 'blob'):
+            continue
+        width = OSC_ATOMS[kind][1] if kind in OSC_ATOMS else 0
+        ctx.ob('C06.size', f'{g.fq}:infers[{cn}]:width', dv is not None and width <= dv,
+               f'_get_arg_type can infer {cn} ({tag!r}), written with {width} bytes; the size predictor counts {dv} for such a value', g.node, g.module)
     # list branch
     lb = br.get(f'isinstance({var}, list)')
     lsrc = ' '.join(norm(s) for s in lb) if lb else ''
@@ -532,6 +546,9 @@ def run(ctx):
 
 
 MUTANTS = [
+    dict(rule='C06.size', name='large floats inferred as doubles', file='sc3/base/_osclib.py',
+         old="        elif isinstance(arg_value, float):\n            arg_type = self.ARG_TYPE_FLOAT\n",
+         new="        elif isinstance(arg_value, float):\n            arg_type = self.ARG_TYPE_DOUBLE if abs(arg_value) > 3.4e38 else self.ARG_TYPE_FLOAT\n"),
     dict(rule='C06.refuse', name='(fix reverted) null bytes inside strings are written', file='sc3/base/_osclib.py',
          old="    if b'\\x00' in dgram:\n        raise OscTypeBuildError('OSC strings cannot contain null characters')\n", new=""),
     dict(rule='C06.refuse', name='(fix reverted) any non-empty address is accepted', file='sc3/base/_osclib.py',
